@@ -1,11 +1,17 @@
 package race
 
 import (
+	"bytes"
+	"encoding/json"
 	"fmt"
 	"os"
+	"os/exec"
 	"runtime"
 	"strconv"
+	"strings"
 	"sync"
+	"sync/atomic"
+	"syscall"
 	"testing"
 	"time"
 )
@@ -33,23 +39,155 @@ func mixSeed(a, b, c int64) int64 {
 //	RACE_SECS   wall-clock budget in seconds (default 8)
 //	RACE_SEED   PRNG seed (default 1)
 //	RACE_PAR    scenario workers running in parallel (default 8)
+//	RACE_FORK   0 = run the scenarios in this process (default 1, see below)
 //	RACE_STATS  1 = count log messages/transitions and print them (adds synchronisation
 //	            to the library's goroutines: for tuning the generator only)
 //	GORACE      should be "log_path=<prefix> halt_on_error=0"
 //
-// The detector's log is complete only when the process has exited, so the
-// authoritative result is produced afterwards by cmd/parse from <prefix>.<pid> and
-// RACE_OUT+".meta" (written here). RACE_OUT itself is also written here, from
-// whatever the log holds at the end of the test (best effort).
+// Concurrent Start/Stop calls can make the library panic ("sync: WaitGroup is reused
+// before previous Wait has returned"), which kills the process. So that such a crash
+// neither goes unnoticed nor ends the run, the test re-executes its own binary: the
+// scenarios run in a child process (RACE_CHILD=1); when a child dies the crash is
+// recorded and another child uses up the rest of the budget; a child that hangs is
+// sent SIGQUIT (goroutine dump) and recorded as a hang.
 //
-// The test fails (and the binary exits non-zero) iff the detector reported a race;
-// that is the testing package's own doing.
+// Results: RACE_OUT+".meta" (scenarios, api_calls, seconds, crashes) and RACE_OUT
+// (meta plus the normalised reports from the children's detector logs
+// "<prefix>.<pid>", which are complete because the children have exited). With
+// RACE_FORK=0 the log is still being written while it is parsed; cmd/parse then
+// produces the authoritative RACE_OUT after the process has exited.
+//
+// The test fails (and the binary exits non-zero) iff the detector reported a race or
+// a child crashed.
 func TestRace(t *testing.T) {
 	out := os.Getenv("RACE_OUT")
 	if out == "" {
 		t.Skip("RACE_OUT not set")
 	}
+	if os.Getenv("RACE_CHILD") == "1" || os.Getenv("RACE_FORK") == "0" {
+		runScenarios(t, out)
+		return
+	}
+	supervise(t, out)
+}
+
+func supervise(t *testing.T, out string) {
 	secs := envInt("RACE_SECS", 8)
+	seed := envInt("RACE_SEED", 1)
+	start := time.Now()
+	deadline := start.Add(time.Duration(secs) * time.Second)
+	logPrefix := LogPathFromGORACE(os.Getenv("GORACE"))
+	total := Meta{Seed: seed, Par: int(envInt("RACE_PAR", 8))}
+	var files []string
+	failed := false
+
+	for run := 0; ; run++ {
+		left := time.Until(deadline)
+		if left < 700*time.Millisecond || (run > 0 && left < 1500*time.Millisecond) {
+			break
+		}
+		childSeed := seed + int64(run)*1000003
+		childOut := fmt.Sprintf("%s.child%d", out, run)
+		os.Remove(childOut + ".meta")
+		cmd := exec.Command(os.Args[0], "-test.run", "^TestRace$", "-test.count=1", "-test.v")
+		cmd.Env = append(os.Environ(), "RACE_CHILD=1", "RACE_OUT="+childOut,
+			fmt.Sprintf("RACE_MS=%d", left.Milliseconds()), fmt.Sprintf("RACE_SEED=%d", childSeed))
+		var buf bytes.Buffer
+		cmd.Stdout, cmd.Stderr = &buf, &buf
+		childStart := time.Now()
+		if err := cmd.Start(); err != nil {
+			t.Fatalf("starting child: %v", err)
+		}
+		total.Runs++
+		waitErr := make(chan error, 1)
+		go func() { waitErr <- cmd.Wait() }()
+		var err error
+		hung := false
+		select {
+		case err = <-waitErr:
+		case <-time.After(left + 8*time.Second):
+			// every scenario ends by itself; a child that is still there is stuck
+			hung = true
+			_ = cmd.Process.Signal(syscall.SIGQUIT)
+			select {
+			case err = <-waitErr:
+			case <-time.After(3 * time.Second):
+				_ = cmd.Process.Kill()
+				err = <-waitErr
+			}
+		}
+		after := time.Since(childStart).Seconds()
+		if logPrefix != "" {
+			f := fmt.Sprintf("%s.%d", logPrefix, cmd.Process.Pid)
+			if _, e := os.Stat(f); e == nil {
+				files = append(files, f)
+			}
+		}
+		var cm Meta
+		if b, e := os.ReadFile(childOut + ".meta"); e == nil {
+			_ = json.Unmarshal(b, &cm)
+		}
+		os.Remove(childOut + ".meta")
+		total.Scenarios += cm.Scenarios
+		total.APICalls += cm.APICalls
+		output := buf.String()
+		if os.Getenv("RACE_STATS") == "1" {
+			t.Logf("child %d output:\n%s", run, output)
+		}
+		if err == nil {
+			continue
+		}
+		failed = true
+		c, isCrash := ParseCrash(output)
+		switch {
+		case hung:
+			c.Kind, c.Message = "hang", "child did not finish; goroutine dump requested with SIGQUIT"
+			if i := strings.Index(output, "SIGQUIT"); i >= 0 {
+				output = output[i:]
+			}
+			if len(output) > 6000 {
+				output = output[:6000]
+			}
+			c.Raw = output
+		case isCrash:
+		case strings.Contains(output, "race detected during execution of test"):
+			continue // the ordinary way for a child to fail
+		default:
+			c.Kind, c.Message = "exit", err.Error()
+			if len(output) > 3000 {
+				output = output[len(output)-3000:]
+			}
+			c.Raw = output
+		}
+		c.Seed, c.After = childSeed, after
+		total.Crashes = append(total.Crashes, c)
+		t.Errorf("child %d (seed %d) %s after %.1fs: %s [%s %s]", run, childSeed, c.Kind, after, c.Message, c.Frame[0], c.Frame[1])
+	}
+
+	total.Seconds = time.Since(start).Seconds()
+	if err := WriteJSON(out+".meta", total); err != nil {
+		t.Fatalf("writing %s.meta: %v", out, err)
+	}
+	res := Collect(files, total)
+	if err := WriteJSON(out, res); err != nil {
+		t.Fatalf("writing %s: %v", out, err)
+	}
+	t.Logf("runs=%d scenarios=%d api_calls=%d seconds=%.1f reports=%d keys=%d crashes=%d", total.Runs, total.Scenarios,
+		total.APICalls, total.Seconds, res.TotalReports, len(res.Reports), len(total.Crashes))
+	for _, r := range res.Reports {
+		t.Errorf("race %4dx %s", r.Count, r.Key)
+	}
+	if failed && len(res.Reports) == 0 && len(total.Crashes) == 0 {
+		t.Errorf("a child failed but left no report (GORACE log_path not set?)")
+	}
+}
+
+// runScenarios is the working part: it runs random scenarios until the budget is used up.
+func runScenarios(t *testing.T, out string) {
+	budget := time.Duration(envInt("RACE_SECS", 8)) * time.Second
+	if v := envInt("RACE_MS", 0); v > 0 {
+		budget = time.Duration(v) * time.Millisecond
+	}
 	seed := envInt("RACE_SEED", 1)
 	par := int(envInt("RACE_PAR", 8))
 	if par < 1 {
@@ -61,9 +199,30 @@ func TestRace(t *testing.T) {
 	}
 
 	start := time.Now()
-	deadline := start.Add(time.Duration(secs) * time.Second)
-	type tally struct{ scenarios, calls int64 }
-	tallies := make([]tally, par)
+	deadline := start.Add(budget)
+	// progress counters: touched by the workers between scenarios and by the writer
+	// below only, never by code that runs concurrently with the library
+	var scenarios, calls atomic.Int64
+	writeMeta := func() error {
+		return WriteJSON(out+".meta", Meta{Scenarios: scenarios.Load(), APICalls: calls.Load(),
+			Seconds: time.Since(start).Seconds(), Seed: seed, Par: par})
+	}
+	stopWriter := make(chan struct{})
+	writerDone := make(chan struct{})
+	go func() {
+		defer close(writerDone)
+		tick := time.NewTicker(250 * time.Millisecond)
+		defer tick.Stop()
+		for {
+			select {
+			case <-tick.C:
+				_ = writeMeta() // survives a crash of the process
+			case <-stopWriter:
+				return
+			}
+		}
+	}()
+
 	errs := make([]error, par)
 	var wg sync.WaitGroup
 	for w := 0; w < par; w++ {
@@ -80,37 +239,37 @@ func TestRace(t *testing.T) {
 					errs[w] = err
 					return
 				}
-				tallies[w].calls += sc.run()
-				tallies[w].scenarios++
+				calls.Add(sc.run())
+				scenarios.Add(1)
 			}
 		}(w)
 	}
 	wg.Wait()
-
-	meta := Meta{Seconds: time.Since(start).Seconds(), Seed: seed, Par: par}
-	for _, x := range tallies {
-		meta.Scenarios += x.scenarios
-		meta.APICalls += x.calls
-	}
+	close(stopWriter)
+	<-writerDone
 	for _, err := range errs {
 		if err != nil {
 			t.Error(err)
 		}
 	}
-	if err := WriteJSON(out+".meta", meta); err != nil {
+	if err := writeMeta(); err != nil {
 		t.Fatalf("writing %s.meta: %v", out, err)
 	}
 
 	// give goroutines that were told to stop a moment to get there, then look
 	time.Sleep(100 * time.Millisecond)
-	t.Logf("scenarios=%d api_calls=%d seconds=%.1f goroutines_left=%d", meta.Scenarios, meta.APICalls, meta.Seconds, runtime.NumGoroutine())
+	t.Logf("scenarios=%d api_calls=%d seconds=%.1f goroutines_left=%d", scenarios.Load(), calls.Load(),
+		time.Since(start).Seconds(), runtime.NumGoroutine())
 	if st != nil {
 		ks, m := st.snapshot()
 		for _, k := range ks {
 			t.Logf("  %-60s %d", k, m[k])
 		}
 	}
-
+	if os.Getenv("RACE_CHILD") == "1" {
+		return
+	}
+	// in-process mode: best effort from the part of the log written so far
 	var files []string
 	if p := LogPathFromGORACE(os.Getenv("GORACE")); p != "" {
 		f := fmt.Sprintf("%s.%d", p, os.Getpid())
@@ -118,7 +277,7 @@ func TestRace(t *testing.T) {
 			files = append(files, f)
 		}
 	}
-	res := Collect(files, meta)
+	res := Collect(files, Meta{Scenarios: scenarios.Load(), APICalls: calls.Load(), Seconds: time.Since(start).Seconds(), Seed: seed, Par: par, Runs: 1})
 	if err := WriteJSON(out, res); err != nil {
 		t.Fatalf("writing %s: %v", out, err)
 	}
@@ -211,6 +370,13 @@ Previous write at 0x00c0001a2040 by goroutine 25:
 	}
 	if _, ok := got["harness"]; !ok {
 		t.Errorf("harness report missing: %v", reps)
+	}
+	c, ok := ParseCrash("=== RUN   TestRace\npanic: sync: WaitGroup is reused before previous Wait has returned\n\ngoroutine 15253 [running]:\n" +
+		"sync.(*WaitGroup).Wait(0xc00028e858)\n\t/go/src/sync/waitgroup.go:208 +0x172\n" +
+		"github.com/ali-assar/NATS-Leader-Election/leader.(*kvElection).StopWithContext.func1()\n\t/repo/leader/kv_election.go:752 +0x3c\n" +
+		"created by github.com/ali-assar/NATS-Leader-Election/leader.(*kvElection).StopWithContext in goroutine 14331\n\t/repo/leader/kv_election.go:751 +0x49d\n")
+	if !ok || c.Kind != "panic" || c.Frame != [2]string{"leader.(*kvElection).StopWithContext", "kv_election.go:752"} {
+		t.Errorf("ParseCrash: %+v", c)
 	}
 	if LogPathFromGORACE("halt_on_error=0 log_path=/tmp/x") != "/tmp/x" || LogPathFromGORACE("log_path=stderr") != "" {
 		t.Error("LogPathFromGORACE")
